@@ -167,7 +167,7 @@ def run(tier, seed):
         "bounds": "expression positions compared: all; identifiers are symbolic reals; specification families bounded as in DESIGN §5",
         "functions_exercised": "teaal.hifiber.* gen(), teaal.trans.* tree construction, teaal.trans.coord_access.CoordAccess.build_expr",
         "vacuity": "a tree whose nesting differs from Python's reading (2*((M-1)//2+1) printed without parentheses) is a satisfiable disequality; seeded/C09 demonstrates it",
-        "exhaustive": True,
+        "exhaustive": False,
     }
     return runner.finish(PROP, tier, seed, "translation_validation", res, t0, cov, ASSUME)
 
